@@ -66,7 +66,7 @@ def k10 : Key := true :: false :: List.replicate 254 false
 def k11 : Key := true :: true :: List.replicate 254 false
 /-- two keys, both in the RIGHT half of the trie -/
 def twoRight : List (Leaf (Stored Nat Nat)) :=
-  [{ sep := zeroKey, entries := [(k10, .inline 5), (k11, .overflow 7)] }]
+  [{ sep := zeroKey, entries := [(k10, .inline 5), (k11, .overflow 7 1000)] }]
 def twoRightSet : KVL Nat := trieSet id (flat twoRight)
 def twoRightPage : Option (T × T) :=
   some (nodeAt TH 255 1 (side 0 false twoRightSet), nodeAt TH 255 1 (side 0 true twoRightSet))
@@ -226,9 +226,9 @@ example : ∃ (leaves : List (Leaf (Stored Nat Nat))) (rp : Option (T × T)),
   ⟨twoRight, twoRightPage, by decide, T10_root_left_only_counterexample.1⟩
 
 /-- T10_root_at_open_single: one key with an overflow value -/
-example : computeRootNode (B := Nat) {} TH id none [{ sep := zeroKey, entries := [(k10, .overflow 77)] }] =
+example : computeRootNode (B := Nat) {} TH id none [{ sep := zeroKey, entries := [(k10, (.overflow 77 1000))] }] =
     .ok (TH.leaf k10 77) :=
-  T10_root_at_open_single TH TH_sound id k10 (by simp only [k10, List.length_cons, List.length_replicate]) (.overflow 77) none (.inl rfl)
+  T10_root_at_open_single TH TH_sound id k10 (by simp only [k10, List.length_cons, List.length_replicate]) ((.overflow 77 1000)) none (.inl rfl)
 
 /-- T10_open_uses_manifest / T10_open_config_independent: the directory `create` leaves for 300 buckets, opened under
 other Options (another bucket count, another seed, rollback on) -/
